@@ -182,6 +182,7 @@ impl<'a> ElfSectionIter<'a> {
 //@  fn *: rules R2
 //@  fn *: sigrewrite /Self::Item/ => /ElfSection<'a>/ x*
 //@  fn next: ret r
+//@  fn next: sigrewrite /Self::Item/ => /ElfSection<'a>/ x*
 //@  fn next: spec:
 //@    requires old(self).wf(), panics_allowed(),
 //@    ensures
